@@ -28,7 +28,9 @@ def set : Map V → Bytes → V → Map V
     else (k', v') :: set m k v
 
 /-- `store.Delete`. -/
-def del (m : Map V) (k : Bytes) : Map V := m.filter (fun e => e.1 ≠ k)
+def del : Map V → Bytes → Map V
+  | [], _ => []
+  | (k', v) :: m, k => if k' = k then del m k else (k', v) :: del m k
 
 def keys (m : Map V) : List Bytes := m.map (·.1)
 
